@@ -142,25 +142,32 @@ class BTree(Entity):
         )
 
     def get(self, key: str) -> Generator[float, None, Any | None]:
-        """Look up a key, yielding page read latency for each tree level."""
+        """Look up a key, yielding page read latency for each tree level.
+
+        The page reads are paid first and the key is then looked up in the
+        tree as it is at that moment (like put/delete/scan, which also pay the
+        traversal latency before touching the tree).  Holding a node across a
+        yield is not safe: a concurrent put may split it and move the key to a
+        new sibling, and the lookup would miss a key that is present.
+        """
         self._total_reads += 1
 
-        node = self._root
         for _ in range(self._depth):
             self._total_page_reads += 1
             yield self._page_read_latency
 
-            if node.leaf:
-                idx = bisect.bisect_left(node.keys, key)
-                if idx < len(node.keys) and node.keys[idx] == key:
-                    return node.values[idx]
-                return None
+        return self._lookup(key)
 
-            # Internal node: find child
+    def _lookup(self, key: str) -> Any | None:
+        """Walk from the root to the leaf responsible for ``key``."""
+        node = self._root
+        while not node.leaf:
             idx = bisect.bisect_right(node.keys, key)
             node = node.children[idx]
 
-        # Should not reach here, but handle edge case
+        idx = bisect.bisect_left(node.keys, key)
+        if idx < len(node.keys) and node.keys[idx] == key:
+            return node.values[idx]
         return None
 
     def get_sync(self, key: str) -> Any | None:
